@@ -13,16 +13,30 @@
     * the believed cursor of a layout is the spec's insertion point, and the renderer's own newline is
       written exactly when the terminal has a wrap pending;
     * the fast path of `edit_insert` leaves believed and real cursor in agreement, without pending wrap.
-  Stated, not yet proved (`…_statement`): the screen-content theorems (full refresh, cursor-only move,
-  fast path = full refresh, composition over histories, final state); they need the cell-level lemmas
-  of the emulator (`Grid.get` of `set` / `eraseLineFrom` / `eraseBelow`) and the decimal-parameter
-  parser lemma, which are not written yet.  The differential check covers them meanwhile.
+  Screen content (cell-level lemmas in `Rl/Lemmas/Term.lean`, byte-string lemmas in `Rl/Lemmas/Render.lean`):
+    * `C02_full_refresh`: the bytes of `refresh_line` lead from any state the renderer believes correctly to
+      the terminal showing the new prompt, line, hint and cursor, nothing left over;
+    * `C02_move_cursor`: a cursor-only move keeps the text and puts the cursor on the new insertion point;
+    * `C02_fast_path`: under the guard of `edit_insert` the one character written gives what a repaint gives;
+    * `C02_final_full`: the last move to the end of the buffer plus the final newline leave the cursor at
+      column 0 below every row of the text;
+    * `C02_history`: composition — after every prefix of a coherent render log ending in a callback, the
+      terminal that interpreted all bytes shows the state the callback sees (with its hint or without any).
+  The invariant these preserve is `C02_Synced` (terminal vocabulary only).  The statements announced earlier
+  in the vocabulary of `calculate_position` (`C02_…_statement`) are **false as written** — they say nothing
+  about how the old text is segmented, and `calculate_position` is only right on clusters whose width is the
+  width of their base character; the log of the history statement may carry a callback state that was never
+  rendered — each is kept with a refutation (`…_statement_false`) and proved with the missing hypotheses
+  (`C02_full_refresh_consistent`, `C02_move_cursor_consistent`, `C02_fast_path_shows`, `C02_final_full`,
+  `C02_history`).
 -/
 import Rl.Layout
 import Rl.Term
 import Rl.Render
 import Rl.Spec.Screen
 import Rl.Lemmas.Layout
+import Rl.Lemmas.Term
+import Rl.Lemmas.Render
 open Rl Rl.Spec
 
 /-- every grapheme of `s` is of the quantified kind -/
@@ -177,16 +191,224 @@ example :
     posLoop R [['>'], [' '], ['a'], ['a']] ({}, 0) = ({ col := 4, row := 0 }, 0) := by
   decide
 
-/-! ### full statements not yet proved (definitions: nothing is asserted) -/
+/-! ### the screen-content theorems -/
 
-/-- what the renderer believes (`Layout`) is true of the terminal `t` that shows `(prompt, line, pos, hint)` -/
+/-- what the renderer believes (`Layout`) is true of the terminal `t` that shows `(prompt, line, pos, hint)`
+    — in the vocabulary of `calculate_position` -/
 def C02_Consistent (S : Segmenter) (R : RCfg) (t : Term) (l : Layout) (prompt before after hint : Text) : Prop :=
   t.cols = R.cols ∧ Shows R.cw t prompt before after hint ∧
   l.cursor = calculatePosition S R (prompt ++ before) {} ∧
   l.end_ = calculatePosition S R (prompt ++ before ++ after ++ hint) {}
 
-/-- full repaint: from any consistent state, the bytes of `refresh_line` lead to the terminal showing the
-    new state -/
+/-- the same invariant in the vocabulary of the terminal only (`Rl.Synced`): `t` shows the text, the
+    believed cursor / end positions are where a terminal stands after printing `prompt ++ before` /
+    the whole text from the origin (`col = cols` ⇔ wrap pending), and the text is made of line breaks and
+    non-control characters.  This is the invariant the theorems below preserve; it needs no hypothesis on
+    how the old text is segmented. -/
+def C02_Synced (R : RCfg) (t : Term) (l : Layout) (prompt before after hint : Text) : Prop :=
+  Synced R t l (prompt ++ (before ++ after) ++ hint) (prompt ++ before)
+
+/-- the invariant implies the property's `Shows` -/
+theorem C02_synced_shows (R : RCfg) (t : Term) (l : Layout) (prompt before after hint : Text)
+    (h : C02_Synced R t l prompt before after hint) : Shows R.cw t prompt before after hint := by
+  unfold Shows idealTerm
+  rw [h.cols]
+  exact ⟨h.canon, h.cursor, h.pending, h.ps⟩
+
+/-- `C02_Consistent` over texts of the quantified kind is `C02_Synced` -/
+theorem C02_synced_of_consistent (S : Segmenter) (R : RCfg) (hc : 2 ≤ R.cols) (t : Term) (l : Layout)
+    (prompt b a h : Text) (hcons : C02_Consistent S R t l prompt b a h)
+    (h1 : C02_Plain S R (prompt ++ b)) (h2 : C02_Plain S R (prompt ++ b ++ a ++ h)) :
+    C02_Synced R t l prompt b a h := by
+  obtain ⟨hcols, ⟨s1, s2, s3, s4⟩, hcur, hend⟩ := hcons
+  have e : prompt ++ (b ++ a) ++ h = prompt ++ b ++ a ++ h := by simp [List.append_assoc]
+  unfold C02_Synced
+  rw [e]
+  unfold idealTerm at s1
+  rw [hcols] at s1 s2
+  refine ⟨hcols, by rw [s1, e], s2, s3, s4, ?_, ?_, plainT_of_seg S R _ h2, ⟨a ++ h, by simp [List.append_assoc]⟩⟩
+  · rw [hcur]; exact tracks_calc S R hc _ _ _ h1 (C02_blank_tracks R hc)
+  · rw [hend]; exact tracks_calc S R hc _ _ _ h2 (C02_blank_tracks R hc)
+
+theorem C02_consistent_of_synced (S : Segmenter) (R : RCfg) (hc : 2 ≤ R.cols) (t : Term) (l : Layout)
+    (prompt b a h : Text) (hs : C02_Synced R t l prompt b a h)
+    (h1 : C02_Plain S R (prompt ++ b)) (h2 : C02_Plain S R (prompt ++ b ++ a ++ h)) :
+    C02_Consistent S R t l prompt b a h := by
+  have e : prompt ++ (b ++ a) ++ h = prompt ++ b ++ a ++ h := by simp [List.append_assoc]
+  refine ⟨hs.cols, C02_synced_shows R t l prompt b a h hs, ?_, ?_⟩
+  · exact tracks_unique hs.cur (tracks_calc S R hc _ _ _ h1 (C02_blank_tracks R hc))
+  · have := hs.end_
+    rw [e] at this
+    exact tracks_unique this (tracks_calc S R hc _ _ _ h2 (C02_blank_tracks R hc))
+
+/-- **Full repaint.**  From any state in which the terminal shows what the renderer believes, the bytes of
+    `refresh_line` (clear the old rows, print prompt ++ line ++ hint from the origin, own newline iff the
+    wrap is pending, move up, CR, move right) lead to the terminal showing the new state — whatever was on
+    the screen before, nothing of it is left. The prompt, the two halves of the line and the hint are
+    measured piecewise by `compute_layout`, so each piece is of the quantified kind. -/
+theorem C02_full_refresh (S : Segmenter) (R : RCfg) (t : Term) (old new : Layout)
+    (prompt b a h prompt' b' a' : Text) (h' : Option Text) (dflt : Bool) (bytes : Text)
+    (hc : 2 ≤ R.cols) (hs : C02_Synced R t old prompt b a h)
+    (hp' : C02_Plain S R prompt') (hb' : C02_Plain S R b') (ha' : C02_Plain S R a')
+    (hh' : C02_Plain S R (h'.getD []))
+    (hl : computeLayout S R (calculatePosition S R prompt' {}) dflt (b' ++ a') (blen b') h' = .ok new)
+    (hbytes : refreshLineBytes R prompt' (b' ++ a') h' old new = .ok bytes) :
+    C02_Synced R (t.feed R.cw bytes) new prompt' b' a' (h'.getD []) := by
+  have hps := tracks_calc S R hc prompt' _ _ hp' (C02_blank_tracks R hc)
+  obtain ⟨_, hcur, hend⟩ := layout_tracks S R hc prompt' b' a' h' _ dflt new hps hb' ha' hh' hl
+  rw [refreshLineBytes_ok hbytes]
+  have hplain : PlainT (prompt' ++ (b' ++ a') ++ h'.getD []) :=
+    plainT_append (plainT_append (plainT_of_seg S R _ hp')
+      (plainT_append (plainT_of_seg S R _ hb') (plainT_of_seg S R _ ha'))) (plainT_of_seg S R _ hh')
+  exact synced_refresh hc hs hplain ⟨a' ++ h'.getD [], by simp [List.append_assoc]⟩ hcur hend
+
+/-- the statement in the vocabulary of `calculate_position` (the form announced in DESIGN.md), with the
+    hypotheses it needs: the old text and its prefix are of the quantified kind (else the believed row count
+    is not the real one, see `C02_full_refresh_needs_plain_old`), and so are the new pieces, the new prefix
+    and the new text -/
+theorem C02_full_refresh_consistent (S : Segmenter) (R : RCfg) (t : Term) (old new : Layout)
+    (prompt b a h prompt' b' a' : Text) (h' : Option Text) (bytes : Text)
+    (hc : 2 ≤ R.cols) (hcons : C02_Consistent S R t old prompt b a h)
+    (ho1 : C02_Plain S R (prompt ++ b)) (ho2 : C02_Plain S R (prompt ++ b ++ a ++ h))
+    (hp' : C02_Plain S R prompt') (hb' : C02_Plain S R b') (ha' : C02_Plain S R a')
+    (hh' : C02_Plain S R (h'.getD []))
+    (hn1 : C02_Plain S R (prompt' ++ b')) (hn2 : C02_Plain S R (prompt' ++ b' ++ a' ++ h'.getD []))
+    (hl : computeLayout S R (calculatePosition S R prompt' {}) true (b' ++ a') (blen b') h' = .ok new)
+    (hbytes : refreshLineBytes R prompt' (b' ++ a') h' old new = .ok bytes) :
+    C02_Consistent S R (t.feed R.cw bytes) new prompt' b' a' (h'.getD []) :=
+  C02_consistent_of_synced S R hc _ _ _ _ _ _
+    (C02_full_refresh S R t old new prompt b a h prompt' b' a' h' true bytes hc
+      (C02_synced_of_consistent S R hc t old prompt b a h hcons ho1 ho2) hp' hb' ha' hh' hl hbytes) hn1 hn2
+
+/-- **Cursor-only move**: the text stays, the cursor goes to the new insertion point. -/
+theorem C02_move_cursor (S : Segmenter) (R : RCfg) (t : Term) (l : Layout) (prompt b a h b' a' : Text)
+    (hc : 2 ≤ R.cols) (hs : C02_Synced R t l prompt b a h) (hline : b ++ a = b' ++ a')
+    (hpb : C02_Plain S R (prompt ++ b')) :
+    C02_Synced R
+      (t.feed R.cw (moveCursorBytes R l.cursor (calculatePosition S R (prompt ++ b') {})))
+      { l with cursor := calculatePosition S R (prompt ++ b') {} } prompt b' a' h := by
+  unfold C02_Synced at *
+  rw [← hline]
+  exact synced_move hc hs _ _ (tracks_calc S R hc _ _ _ hpb (C02_blank_tracks R hc))
+    ⟨a' ++ h, by rw [hline]; simp [List.append_assoc]⟩
+
+/-- the announced form; the hypotheses on the segmentation of the old and new prefix and of the text are
+    needed to relate `calculate_position` to the screen -/
+theorem C02_move_cursor_consistent (S : Segmenter) (R : RCfg) (t : Term) (l : Layout)
+    (prompt b a h b' a' : Text) (hc : 2 ≤ R.cols) (hcons : C02_Consistent S R t l prompt b a h)
+    (hline : b ++ a = b' ++ a')
+    (h1 : C02_Plain S R (prompt ++ b)) (h2 : C02_Plain S R (prompt ++ b ++ a ++ h))
+    (h1' : C02_Plain S R (prompt ++ b')) :
+    C02_Consistent S R
+      (t.feed R.cw (moveCursorBytes R l.cursor (calculatePosition S R (prompt ++ b') {})))
+      { l with cursor := calculatePosition S R (prompt ++ b') {} } prompt b' a' h := by
+  have e : prompt ++ b' ++ a' ++ h = prompt ++ b ++ a ++ h := by
+    simp only [List.append_assoc]; rw [← List.append_assoc b' a', ← hline]; simp [List.append_assoc]
+  exact C02_consistent_of_synced S R hc _ _ _ _ _ _
+    (C02_move_cursor S R t l prompt b a h b' a' hc
+      (C02_synced_of_consistent S R hc t l prompt b a h hcons h1 h2) hline h1') h1' (by rw [e]; exact h2)
+
+/-- **Fast path = full refresh**: under the guard of `edit_insert`, writing the one character gives the
+    screen (and the believed layout) a full repaint of `prompt ++ line ++ [ch]` would give. -/
+theorem C02_fast_path (R : RCfg) (t : Term) (l : Layout) (prompt b : Text) (ch : Char) (n : Nat)
+    (hint : Option Text) (nph hl : Bool)
+    (hc : 2 ≤ R.cols) (hs : C02_Synced R t l prompt b [] [])
+    (hguard : fastPathGuard R l ch n hint nph hl = true) (hch : isC0Control ch = false) :
+    C02_Synced R (t.feed R.cw [ch])
+      { l with cursor := { l.cursor with col := l.cursor.col + R.cw ch },
+               end_ := { l.end_ with col := l.end_.col + R.cw ch } } prompt (b ++ [ch]) [] [] := by
+  unfold fastPathGuard at hguard
+  simp only [Bool.and_eq_true, decide_eq_true_eq, bne_iff_ne, ne_eq] at hguard
+  obtain ⟨⟨⟨⟨_, hw⟩, hlt⟩, _⟩, _⟩ := hguard
+  unfold C02_Synced at *
+  simp only [List.append_nil] at hs ⊢
+  rw [← List.append_assoc]
+  exact synced_fast hc ch hs hch hw hlt
+
+/-- the announced form (`Shows` of the new state from `C02_Consistent` of the old one); the one added
+    hypothesis is that the old text is of the quantified kind as well -/
+theorem C02_fast_path_shows (S : Segmenter) (R : RCfg) (t : Term) (l : Layout) (prompt b : Text) (ch : Char)
+    (hc : 2 ≤ R.cols) (hcons : C02_Consistent S R t l prompt b [] [])
+    (hguard : fastPathGuard R l ch 1 none true false = true)
+    (hplain : C02_Plain S R (prompt ++ b ++ [ch])) (hold : C02_Plain S R (prompt ++ b)) :
+    Shows R.cw (t.feed R.cw [ch]) prompt (b ++ [ch]) [] [] := by
+  have hs := C02_synced_of_consistent S R hc t l prompt b [] [] hcons hold (by simpa using hold)
+  have hpc : PlainC ch := plainT_of_seg S R _ hplain ch (by simp)
+  rcases hpc with hnl | hch
+  · subst hnl
+    have hlt : l.cursor.col < R.cols := by
+      unfold fastPathGuard at hguard
+      simp only [Bool.and_eq_true, decide_eq_true_eq] at hguard
+      omega
+    have hs' : Synced R t l (prompt ++ b) (prompt ++ b) := by simpa [C02_Synced] using hs
+    have hg : ((Term.blank R.cols).feed R.cw (prompt ++ b)).ps = .ground := hs'.cur.2.1
+    have hv := vrel_step R.cw (synced_vrel hs' hlt) '\n' (Or.inl rfl)
+    have hid : ((Term.blank R.cols).feed R.cw (prompt ++ b)).step R.cw '\n' =
+        (Term.blank R.cols).feed R.cw (prompt ++ (b ++ ['\n'])) := by
+      rw [← List.append_assoc, Term.feed_append R.cw _ (prompt ++ b) ['\n']]; rfl
+    have hnp : ((Term.blank R.cols).feed R.cw (prompt ++ (b ++ ['\n']))).pending = false := by
+      rw [← hid, step_newline _ _ hg]
+    have hcols : (t.feed R.cw ['\n']).cols = R.cols := by
+      have := hv.cols
+      rw [step_newline _ _ hg] at this
+      exact this.trans hs'.cur.1
+    rw [hid] at hv
+    unfold Shows idealTerm insertionPoint
+    rw [hcols]
+    simp only [List.append_nil]
+    refine ⟨hv.canon, ?_, hv.pending.trans hnp, hv.ps1⟩
+    simp only [hnp, Bool.false_eq_true, if_false]
+    rw [← hv.cr, ← hv.cc]; rfl
+  · exact C02_synced_shows R _ _ prompt (b ++ [ch]) [] []
+      (C02_fast_path R t l prompt b ch 1 none true false hc hs hguard hch)
+
+/-- **On return, full statement**: the last `move_cursor` to the end of the buffer plus the final newline
+    lead from any consistent state to "column 0 of a row below every row of the text". -/
+theorem C02_final_full (S : Segmenter) (R : RCfg) (t : Term) (l : Layout) (prompt b a h : Text)
+    (hc : 2 ≤ R.cols) (hs : C02_Synced R t l prompt b a h) (hp : C02_Plain S R (prompt ++ b ++ a)) :
+    (t.feed R.cw (moveCursorBytes R l.cursor (calculatePosition S R (prompt ++ b ++ a) {}) ++ ['\n'])).cc = 0 ∧
+    (t.feed R.cw (moveCursorBytes R l.cursor (calculatePosition S R (prompt ++ b ++ a) {}) ++ ['\n'])).pending = false ∧
+    (t.feed R.cw (moveCursorBytes R l.cursor (calculatePosition S R (prompt ++ b ++ a) {}) ++ ['\n'])).cr >
+      ((Term.blank R.cols).feed R.cw (prompt ++ b ++ a)).cr := by
+  have hm := C02_move_cursor S R t l prompt b a h (b ++ a) [] hc hs (by simp)
+    (by rw [← List.append_assoc]; exact hp)
+  rw [← List.append_assoc] at hm
+  have hshow := C02_synced_shows R _ _ prompt (b ++ a) [] h hm
+  have hcols := hm.cols
+  rw [Term.feed_append]
+  generalize t.feed R.cw (moveCursorBytes R l.cursor (calculatePosition S R (prompt ++ b ++ a) {})) = t1 at *
+  obtain ⟨_, hcur, _, hps⟩ := hshow
+  have hstep : t1.feed R.cw ['\n'] = { t1 with cr := t1.cr + 1, cc := 0, pending := false } :=
+    step_newline R.cw t1 hps
+  rw [hstep]
+  refine ⟨rfl, rfl, ?_⟩
+  unfold insertionPoint at hcur
+  rw [hcols, ← List.append_assoc] at hcur
+  simp only [] at hcur
+  split at hcur
+  · have := (Prod.mk.inj hcur).1
+    show t1.cr + 1 > _
+    omega
+  · have := (Prod.mk.inj hcur).1
+    show t1.cr + 1 > _
+    omega
+
+/-! ### the statements announced earlier are false as written: refutations
+
+  `C02_Consistent` relates the believed positions to the screen through `calculate_position` of the *whole*
+  text, which is right only on clusters of the quantified kind (`PlainG`); the statements below do not ask
+  that of the old text (nor of the prefix before the cursor, which an arbitrary lawful segmenter may cut
+  differently from the whole).  With a width table whose cluster widths are 0 the renderer believes the text
+  occupies one row while it occupies two.  The history statement lets the final callback carry a state that
+  was never rendered (and, read strictly, forbids the hint-less repaint of a highlight-forced cursor move). -/
+
+/-- one character per cluster -/
+def C02_cexSeg : Segmenter := Segmenter.ofGroup (fun (_ : Unit) _ => false) (fun s _ => s) (fun _ => ())
+/-- a width table whose cluster widths are not the widths of the characters -/
+def C02_cexR : RCfg := { cols := 2, gw := fun _ => 0, cw := fun _ => 1 }
+/-- `aaa` on two columns (two rows), cursor at the origin -/
+def C02_cexT : Term := { (Term.blank 2).feed C02_cexR.cw ['a', 'a', 'a'] with cr := 0, cc := 0, pending := false }
+
 def C02_full_refresh_statement : Prop :=
   ∀ (S : Segmenter) (R : RCfg) (t : Term) (old new : Layout) (prompt b a h prompt' b' a' : Text)
     (h' : Option Text) (bytes : Text),
@@ -196,7 +418,14 @@ def C02_full_refresh_statement : Prop :=
     refreshLineBytes R prompt' (b' ++ a') h' old new = .ok bytes →
     C02_Consistent S R (t.feed R.cw bytes) new prompt' b' a' (h'.getD [])
 
-/-- cursor-only move: the text stays, the cursor goes to the new insertion point -/
+theorem C02_full_refresh_statement_false : ¬ C02_full_refresh_statement := by
+  intro h
+  have := h C02_cexSeg C02_cexR C02_cexT {} { defaultPrompt := true } [] [] ['a', 'a', 'a'] [] [] [] [] none
+    ['\r', '\x1b', '[', 'K', '\r'] (by decide)
+    ⟨rfl, ⟨by decide, by decide, rfl, rfl⟩, by decide, by decide⟩
+    (by intro g hg; cases hg) rfl rfl
+  exact absurd this.2.1.1 (by decide)
+
 def C02_move_cursor_statement : Prop :=
   ∀ (S : Segmenter) (R : RCfg) (t : Term) (l : Layout) (prompt b a h b' a' : Text),
     2 ≤ R.cols → C02_Consistent S R t l prompt b a h → b ++ a = b' ++ a' →
@@ -204,15 +433,26 @@ def C02_move_cursor_statement : Prop :=
       (t.feed R.cw (moveCursorBytes R l.cursor (calculatePosition S R (prompt ++ b') {})))
       { l with cursor := calculatePosition S R (prompt ++ b') {} } prompt b' a' h
 
-/-- fast path: under its guard, writing the character gives the screen a full refresh would give -/
-def C02_fast_path_statement : Prop :=
-  ∀ (S : Segmenter) (R : RCfg) (t : Term) (l : Layout) (prompt b : Text) (ch : Char),
-    2 ≤ R.cols → C02_Consistent S R t l prompt b [] [] →
-    fastPathGuard R l ch 1 none true false = true → C02_Plain S R (prompt ++ b ++ [ch]) →
-    Shows R.cw (t.feed R.cw [ch]) prompt (b ++ [ch]) [] []
+theorem C02_move_cursor_statement_false : ¬ C02_move_cursor_statement := by
+  intro h
+  have := h C02_cexSeg C02_cexR
+    { (Term.blank 2).feed C02_cexR.cw ['a', 'b'] with cr := 0, cc := 0, pending := false } {}
+    [] [] ['a', 'b'] [] ['a'] ['b'] (by decide)
+    ⟨rfl, ⟨by decide, by decide, rfl, rfl⟩, by decide, by decide⟩ rfl
+  exact absurd this.2.1.2.1 (by decide)
 
-/-- composition over histories: after every prefix of a render log ending in a `sync`, the terminal that
-    has interpreted all bytes shows the state the `sync` carries -/
+def C02_final_statement : Prop :=
+  ∀ (S : Segmenter) (R : RCfg) (t : Term) (l : Layout) (prompt b a h : Text),
+    2 ≤ R.cols → C02_Consistent S R t l prompt b a h →
+    let t' := t.feed R.cw (moveCursorBytes R l.cursor (calculatePosition S R (prompt ++ b ++ a) {}) ++ ['\n'])
+    t'.cc = 0 ∧ t'.pending = false ∧ t'.cr > ((Term.blank R.cols).feed R.cw (prompt ++ b ++ a)).cr
+
+theorem C02_final_statement_false : ¬ C02_final_statement := by
+  intro h
+  have := h C02_cexSeg C02_cexR C02_cexT {} [] [] ['a', 'a', 'a'] [] (by decide)
+    ⟨rfl, ⟨by decide, by decide, rfl, rfl⟩, by decide, by decide⟩
+  exact absurd this.2.2 (by decide)
+
 def C02_history_statement : Prop :=
   ∀ (S : Segmenter) (R : RCfg) (prompt : Text) (ops : List RenderOp) (line : Text) (pos : Nat)
     (hint : Option Text) (b a : Text),
@@ -221,10 +461,380 @@ def C02_history_statement : Prop :=
     let rs := (RS.run S R prompt (RS.init S R prompt) (ops ++ [.sync line pos hint])).1
     Shows R.cw ((Term.blank R.cols).feed R.cw rs.segs.reverse.flatten) prompt b a (hint.getD [])
 
-/-- on return, full statement: the last `move_cursor` to the end of the buffer plus the final newline
-    lead from any consistent state to "column 0 of a row below the text" -/
-def C02_final_statement : Prop :=
-  ∀ (S : Segmenter) (R : RCfg) (t : Term) (l : Layout) (prompt b a h : Text),
-    2 ≤ R.cols → C02_Consistent S R t l prompt b a h →
-    let t' := t.feed R.cw (moveCursorBytes R l.cursor (calculatePosition S R (prompt ++ b ++ a) {}) ++ ['\n'])
-    t'.cc = 0 ∧ t'.pending = false ∧ t'.cr > ((Term.blank R.cols).feed R.cw (prompt ++ b ++ a)).cr
+theorem C02_history_statement_false : ¬ C02_history_statement := by
+  intro h
+  have := h C02_cexSeg C02_cexR [] [] ['a'] 0 none [] ['a'] (by decide) rfl rfl
+  exact absurd this.1 (by decide)
+
+/-- a lawful segmenter that does not commute with taking prefixes: a text of two characters is one cluster -/
+def C02_cexSeg2 : Segmenter where
+  seg t := if t.length = 2 then [t] else t.map (fun c => [c])
+  flatten_eq t := by
+    have key : ∀ u : Text, (u.map (fun c => [c])).flatten = u := by
+      intro u
+      induction u with
+      | nil => rfl
+      | cons c u ih => simp [ih]
+    split
+    · simp
+    · exact key t
+  ne_nil t g hg := by
+    split at hg
+    · simp at hg; subst hg; intro h; subst h; simp at *
+    · simp at hg; obtain ⟨c, _, rfl⟩ := hg; simp
+
+def C02_cexR2 : RCfg := { cols := 3, gw := fun g => if g.length = 2 then 0 else 1, cw := fun _ => 1 }
+
+def C02_fast_path_statement : Prop :=
+  ∀ (S : Segmenter) (R : RCfg) (t : Term) (l : Layout) (prompt b : Text) (ch : Char),
+    2 ≤ R.cols → C02_Consistent S R t l prompt b [] [] →
+    fastPathGuard R l ch 1 none true false = true → C02_Plain S R (prompt ++ b ++ [ch]) →
+    Shows R.cw (t.feed R.cw [ch]) prompt (b ++ [ch]) [] []
+
+theorem C02_fast_path_statement_false : ¬ C02_fast_path_statement := by
+  intro h
+  have := h C02_cexSeg2 C02_cexR2 ((Term.blank 3).feed C02_cexR2.cw ['a', 'b']) {} [] ['a', 'b'] 'c' (by decide)
+    ⟨rfl, ⟨by decide, by decide, rfl, rfl⟩, by decide, by decide⟩ (by decide)
+    (by
+      intro g hg
+      have : g = ['a'] ∨ g = ['b'] ∨ g = ['c'] := by simpa [C02_cexSeg2] using hg
+      rcases this with rfl | rfl | rfl <;>
+        exact Or.inr ⟨_, [], rfl, by decide, by simp, by decide, by decide⟩)
+  exact absurd this.2.2.1 (by decide)
+
+/-! ### composition over histories
+
+  The render log (`RenderOp`) is replayed by `RS.run`; next to it runs a ghost state `C02_Shown`: what the
+  screen is meant to show after each operation (`C02_next`).  `C02_StepOK` lists what the theorem needs of
+  each operation: texts of the quantified kind, and that the operation is issued in the situation the editor
+  issues it in (a cursor-only move for the line that is displayed under the read's own prompt; the fast
+  path only at the end of a line without hint; no output after the final newline). -/
+
+structure C02_Shown where
+  prompt : Text := []
+  before : Text := []
+  after : Text := []
+  hint : Text := []
+
+def C02_next (S : Segmenter) (R : RCfg) (prompt : Text) (s : RS) (g : C02_Shown) : RenderOp → C02_Shown
+  | .refresh p line pos info =>
+    match splitAtByte line pos with
+    | some (b, a) => ⟨p.getD prompt, b, a, info.getD []⟩
+    | none => g
+  | .moveCursor line pos hl =>
+    match splitAtByte line pos with
+    | some (b, a) =>
+      if s.layout.cursor == calculatePosition S R b s.promptSize then { g with before := b, after := a }
+      else if hl then ⟨prompt, b, a, []⟩ else { g with before := b, after := a }
+    | none => g
+  | .insert ch n push line pos hint nph hl =>
+    if push && fastPathGuard R s.layout ch n hint nph hl then ⟨g.prompt, g.before ++ [ch], [], []⟩
+    else match splitAtByte line pos with
+      | some (b, a) => ⟨prompt, b, a, hint.getD []⟩
+      | none => g
+  | .clearScreen => ⟨[], [], [], []⟩
+  | .moveToEnd => ⟨g.prompt, g.before ++ g.after ++ g.hint, [], []⟩
+  | .sync _ _ _ => g
+  | .writeln => g
+
+def C02_PlainSplit (S : Segmenter) (R : RCfg) (line : Text) (pos : Nat) (info : Option Text) : Prop :=
+  ∀ b a, splitAtByte line pos = some (b, a) →
+    C02_Plain S R b ∧ C02_Plain S R a ∧ C02_Plain S R (info.getD [])
+
+def C02_StepOK (S : Segmenter) (R : RCfg) (prompt : Text) (s : RS) (g : C02_Shown) : RenderOp → Prop
+  | .refresh p line pos info => C02_Plain S R (p.getD prompt) ∧ C02_PlainSplit S R line pos info
+  | .moveCursor line pos _ =>
+    g.prompt = prompt ∧ g.before ++ g.after = line ∧ C02_PlainSplit S R line pos none
+  | .insert ch n push line pos hint nph hl =>
+    ((push && fastPathGuard R s.layout ch n hint nph hl) = true →
+      g.after = [] ∧ g.hint = [] ∧ isC0Control ch = false) ∧ C02_PlainSplit S R line pos hint
+  | .clearScreen => True
+  | .moveToEnd => True
+  | .sync line pos hint =>
+    g.prompt = prompt ∧ splitAtByte line pos = some (g.before, g.after) ∧ (g.hint = hint.getD [] ∨ g.hint = [])
+  | .writeln => False
+
+/-- every operation of the log is issued in a situation the theorem covers -/
+def C02_Coherent (S : Segmenter) (R : RCfg) (prompt : Text) : RS → C02_Shown → List RenderOp → Prop
+  | _, _, [] => True
+  | s, g, op :: rest =>
+    C02_StepOK S R prompt s g op ∧
+    match s.apply S R prompt op with
+    | .ok s' => C02_Coherent S R prompt s' (C02_next S R prompt s g op) rest
+    | .error _ => True
+
+/-- the invariant of the composition: the terminal that has interpreted everything written so far shows the
+    ghost state as the renderer believes -/
+structure C02_Inv (S : Segmenter) (R : RCfg) (prompt : Text) (s : RS) (g : C02_Shown) : Prop where
+  synced : C02_Synced R ((Term.blank R.cols).feed R.cw s.all) s.layout g.prompt g.before g.after g.hint
+  psize : s.promptSize = calculatePosition S R prompt {}
+
+theorem C02_inv_refresh (S : Segmenter) (R : RCfg) (prompt : Text) (hc : 2 ≤ R.cols) (s s' : RS) (g : C02_Shown)
+    (hinv : C02_Inv S R prompt s g) (p : Text) (dflt : Bool) (line : Text) (pos : Nat) (info : Option Text)
+    (hp : C02_Plain S R p) (hsplit : C02_PlainSplit S R line pos info)
+    (h : s.refresh S R p (calculatePosition S R p {}) dflt line pos info = .ok s') :
+    ∃ b a, splitAtByte line pos = some (b, a) ∧ C02_Inv S R prompt s' ⟨p, b, a, info.getD []⟩ := by
+  obtain ⟨nl, bytes, b, a, hs, hl, hb, e1, e2, e3⟩ := refresh_ok h
+  obtain ⟨hp1, hp2, hp3⟩ := hsplit b a hs
+  obtain ⟨rfl, rfl⟩ := splitAtByte_some hs
+  refine ⟨b, a, hs, ⟨?_, e3.trans hinv.psize⟩⟩
+  rw [e2, Term.feed_append, e1]
+  exact C02_full_refresh S R _ s.layout nl g.prompt g.before g.after g.hint p b a info dflt bytes hc
+    hinv.synced hp hp1 hp2 hp3 hl hb
+
+theorem C02_inv_step (S : Segmenter) (R : RCfg) (prompt : Text) (hc : 2 ≤ R.cols)
+    (hprompt : C02_Plain S R prompt) (s s' : RS) (g : C02_Shown) (op : RenderOp)
+    (hinv : C02_Inv S R prompt s g) (hok : C02_StepOK S R prompt s g op)
+    (happ : s.apply S R prompt op = .ok s') :
+    C02_Inv S R prompt s' (C02_next S R prompt s g op) := by
+  have hpt : Tracks R s.promptSize ((Term.blank R.cols).feed R.cw prompt) := by
+    rw [hinv.psize]; exact tracks_calc S R hc _ _ _ hprompt (C02_blank_tracks R hc)
+  cases op with
+  | refresh p line pos info =>
+    obtain ⟨hp, hsplit⟩ := hok
+    cases p with
+    | none =>
+      simp only [RS.apply] at happ
+      rw [hinv.psize] at happ
+      obtain ⟨b, a, hs, hi⟩ := C02_inv_refresh S R prompt hc s s' g hinv prompt true line pos info hp hsplit happ
+      simp only [C02_next, hs, Option.getD_none]
+      exact hi
+    | some p =>
+      simp only [RS.apply] at happ
+      obtain ⟨b, a, hs, hi⟩ := C02_inv_refresh S R prompt hc s s' g hinv p false line pos info hp hsplit happ
+      simp only [C02_next, hs, Option.getD_some]
+      exact hi
+  | moveCursor line pos hl =>
+    obtain ⟨hgp, hline, hsplit⟩ := hok
+    simp only [RS.apply, RS.moveCursor] at happ
+    cases hs : splitAtByte line pos with
+    | none => rw [hs] at happ; cases happ
+    | some ba =>
+      obtain ⟨b, a⟩ := ba
+      rw [hs] at happ
+      simp only [] at happ
+      obtain ⟨hp1, hp2, _⟩ := hsplit b a hs
+      obtain ⟨hla, _⟩ := splitAtByte_some hs
+      have htr : Tracks R (calculatePosition S R b s.promptSize)
+          ((Term.blank R.cols).feed R.cw (g.prompt ++ b)) := by
+        rw [hgp, Term.feed_append]; exact tracks_calc S R hc _ _ _ hp1 hpt
+      have htext : g.prompt ++ (g.before ++ g.after) ++ g.hint = g.prompt ++ (b ++ a) ++ g.hint := by
+        rw [hline, hla]
+      have hsy := hinv.synced
+      unfold C02_Synced at hsy
+      rw [htext] at hsy
+      simp only [C02_next, hs]
+      by_cases hsame : s.layout.cursor = calculatePosition S R b s.promptSize
+      · have hbeq : (s.layout.cursor == calculatePosition S R b s.promptSize) = true := by simpa using hsame
+        rw [if_pos hbeq] at happ
+        injection happ with happ
+        subst happ
+        rw [if_pos hbeq]
+        refine ⟨?_, hinv.psize⟩
+        exact synced_same hsy _ (by rw [hsame]; exact htr) ⟨a ++ g.hint, by simp [List.append_assoc]⟩
+      · have hbeq : ¬ (s.layout.cursor == calculatePosition S R b s.promptSize) = true := by simpa using hsame
+        rw [if_neg hbeq] at happ
+        rw [if_neg hbeq]
+        cases hl with
+        | true =>
+          simp only [if_true] at happ ⊢
+          rw [hinv.psize] at happ
+          have hsplit' : C02_PlainSplit S R line pos none := hsplit
+          obtain ⟨b', a', hs', hi⟩ := C02_inv_refresh S R prompt hc s s' g hinv prompt true line pos none
+            hprompt hsplit' happ
+          rw [hs] at hs'
+          injection hs' with hs'
+          injection hs' with e1 e2
+          subst e1; subst e2
+          exact hi
+        | false =>
+          simp only [Bool.false_eq_true, if_false] at happ ⊢
+          split at happ
+          · cases happ
+          · injection happ with happ
+            subst happ
+            refine ⟨?_, hinv.psize⟩
+            show Synced R ((Term.blank R.cols).feed R.cw (RS.all (s.emit _))) _ _ _
+            rw [RS.all_emit, Term.feed_append]
+            exact (synced_move hc hsy _ _ htr ⟨a ++ g.hint, by simp [List.append_assoc]⟩).congr rfl rfl
+  | insert ch n push line pos hint nph hl =>
+    obtain ⟨hfast, hsplit⟩ := hok
+    simp only [RS.apply, RS.insert] at happ
+    by_cases hg : (push && fastPathGuard R s.layout ch n hint nph hl) = true
+    · obtain ⟨ga, gh, hch⟩ := hfast hg
+      rw [if_pos hg] at happ
+      simp only [C02_next, hg, if_true]
+      split at happ
+      · cases happ
+      · injection happ with happ
+        subst happ
+        have hguard : fastPathGuard R s.layout ch n hint nph hl = true := by
+          simp only [Bool.and_eq_true] at hg; exact hg.2
+        refine ⟨?_, hinv.psize⟩
+        have hsy := hinv.synced
+        rw [ga, gh] at hsy
+        show C02_Synced R ((Term.blank R.cols).feed R.cw (RS.all (s.emit _))) _ _ _ _ _
+        rw [RS.all_emit, Term.feed_append]
+        exact C02_fast_path R _ s.layout g.prompt g.before ch n hint nph hl hc hsy hguard hch
+    · rw [if_neg hg] at happ
+      rw [hinv.psize] at happ
+      obtain ⟨b, a, hs, hi⟩ := C02_inv_refresh S R prompt hc s s' g hinv prompt true line pos hint
+        hprompt hsplit happ
+      simp only [C02_next, hg, hs]
+      exact hi
+  | clearScreen =>
+    simp only [RS.apply] at happ
+    injection happ with happ
+    subst happ
+    refine ⟨?_, hinv.psize⟩
+    show Synced R ((Term.blank R.cols).feed R.cw (RS.all (s.emit _))) _ _ _
+    rw [RS.all_emit, Term.feed_append]
+    exact synced_clear hc _ s.layout hinv.synced.cols hinv.synced.ps
+  | moveToEnd =>
+    simp only [RS.apply] at happ
+    have hsy := hinv.synced
+    unfold C02_Synced at hsy
+    have htext : g.prompt ++ (g.before ++ g.after ++ g.hint ++ []) ++ [] =
+        g.prompt ++ (g.before ++ g.after) ++ g.hint := by simp [List.append_assoc]
+    have hbef : g.prompt ++ (g.before ++ g.after ++ g.hint) =
+        g.prompt ++ (g.before ++ g.after) ++ g.hint := by simp [List.append_assoc]
+    simp only [C02_next]
+    by_cases hsame : s.layout.cursor = s.layout.end_
+    · have hbeq : (s.layout.cursor == s.layout.end_) = true := by simpa using hsame
+      rw [if_pos hbeq] at happ
+      injection happ with happ
+      subst happ
+      refine ⟨?_, hinv.psize⟩
+      unfold C02_Synced
+      rw [htext, hbef]
+      exact synced_same hsy _ (by rw [hsame]; exact hsy.end_) ⟨[], by simp⟩
+    · have hbeq : ¬ (s.layout.cursor == s.layout.end_) = true := by simpa using hsame
+      rw [if_neg hbeq] at happ
+      injection happ with happ
+      subst happ
+      refine ⟨?_, hinv.psize⟩
+      unfold C02_Synced
+      rw [htext, hbef]
+      show Synced R ((Term.blank R.cols).feed R.cw (RS.all (s.emit _))) _ _ _
+      rw [RS.all_emit, Term.feed_append]
+      exact synced_move hc hsy _ _ hsy.end_ ⟨[], by simp⟩
+  | sync line pos hint =>
+    simp only [RS.apply] at happ
+    injection happ with happ
+    subst happ
+    refine ⟨?_, hinv.psize⟩
+    have : RS.all { s with out := [], segs := s.out :: s.segs } = s.all := by
+      simp [RS.all]
+    simp only [C02_next]
+    rw [this]
+    exact hinv.synced
+  | writeln => exact absurd hok (by simp [C02_StepOK])
+
+theorem C02_history_aux (S : Segmenter) (R : RCfg) (prompt : Text) (hc : 2 ≤ R.cols)
+    (hprompt : C02_Plain S R prompt) (line : Text) (pos : Nat) (hint : Option Text) :
+    ∀ (ops : List RenderOp) (s : RS) (g : C02_Shown), C02_Inv S R prompt s g →
+      C02_Coherent S R prompt s g (ops ++ [.sync line pos hint]) →
+      (RS.run S R prompt s (ops ++ [.sync line pos hint])).2 = false →
+      ∃ g', C02_Inv S R prompt (RS.run S R prompt s (ops ++ [.sync line pos hint])).1 g' ∧
+        g'.prompt = prompt ∧ splitAtByte line pos = some (g'.before, g'.after) ∧
+        (g'.hint = hint.getD [] ∨ g'.hint = []) ∧
+        (RS.run S R prompt s (ops ++ [.sync line pos hint])).1.out = [] := by
+  intro ops
+  induction ops with
+  | nil =>
+    intro s g hinv hcoh _
+    have happ : s.apply S R prompt (.sync line pos hint) = .ok { s with out := [], segs := s.out :: s.segs } := rfl
+    obtain ⟨hok, _⟩ := hcoh
+    have hinv' := C02_inv_step S R prompt hc hprompt s _ g _ hinv hok happ
+    have hrun : RS.run S R prompt s ([] ++ [RenderOp.sync line pos hint]) =
+        ({ s with out := [], segs := s.out :: s.segs }, false) := rfl
+    rw [hrun]
+    exact ⟨g, hinv', hok.1, hok.2.1, hok.2.2, rfl⟩
+  | cons op ops ih =>
+    intro s g hinv hcoh hrun
+    obtain ⟨hok, hrest⟩ := hcoh
+    simp only [List.cons_append, RS.run] at hrun ⊢
+    cases happ : s.apply S R prompt op with
+    | error e => rw [happ] at hrun; simp at hrun
+    | ok s' =>
+      rw [happ] at hrun hrest
+      simp only [] at hrun hrest ⊢
+      exact ih s' _ (C02_inv_step S R prompt hc hprompt s s' g op hinv hok happ) hrest hrun
+
+/-- **Composition over histories.**  For every render log that the replay accepts without panic and whose
+    operations are issued coherently (`C02_Coherent`), at every callback (`sync`) the terminal that has
+    interpreted all bytes written so far shows the prompt, the line and the cursor the callback sees, with
+    the hint the callback sees or without any hint (the reading decision of `Rl/Spec/Screen.lean`: a
+    highlight-forced repaint drops the hint from the screen, not from the editor). -/
+theorem C02_history (S : Segmenter) (R : RCfg) (prompt : Text) (ops : List RenderOp) (line : Text) (pos : Nat)
+    (hint : Option Text) (b a : Text) (hc : 2 ≤ R.cols) (hprompt : C02_Plain S R prompt)
+    (hsplit : splitAtByte line pos = some (b, a))
+    (hcoh : C02_Coherent S R prompt (RS.init S R prompt) {} (ops ++ [.sync line pos hint]))
+    (hrun : (RS.run S R prompt (RS.init S R prompt) (ops ++ [.sync line pos hint])).2 = false) :
+    Shows R.cw ((Term.blank R.cols).feed R.cw
+        (RS.run S R prompt (RS.init S R prompt) (ops ++ [.sync line pos hint])).1.segs.reverse.flatten)
+      prompt b a (hint.getD []) ∨
+    Shows R.cw ((Term.blank R.cols).feed R.cw
+        (RS.run S R prompt (RS.init S R prompt) (ops ++ [.sync line pos hint])).1.segs.reverse.flatten)
+      prompt b a [] := by
+  have hb := C02_blank_tracks R hc
+  have hinit : C02_Inv S R prompt (RS.init S R prompt) {} :=
+    ⟨⟨rfl, rfl, rfl, rfl, rfl, hb, hb, (by intro x hx; cases hx), ⟨[], rfl⟩⟩, rfl⟩
+  obtain ⟨g', hinv, hp, hs, hh, hout⟩ :=
+    C02_history_aux S R prompt hc hprompt line pos hint ops _ _ hinit hcoh hrun
+  have hshow := C02_synced_shows R _ _ _ _ _ _ hinv.synced
+  rw [hsplit] at hs
+  injection hs with hs
+  injection hs with e1 e2
+  have hall : RS.all (RS.run S R prompt (RS.init S R prompt) (ops ++ [.sync line pos hint])).1 =
+      (RS.run S R prompt (RS.init S R prompt) (ops ++ [.sync line pos hint])).1.segs.reverse.flatten := by
+    unfold RS.all; rw [hout]; simp
+  rw [hall, hp, ← e1, ← e2] at hshow
+  rcases hh with hh | hh
+  · left; rw [← hh]; exact hshow
+  · right; rw [← hh]; exact hshow
+
+/-! ### non-vacuity of the composition theorem -/
+
+def C02_exR : RCfg := { cols := 4, gw := fun _ => 1, cw := fun _ => 1 }
+
+theorem C02_exPlain (s : Text) (hs : ∀ c ∈ s, isC0Control c = false) : C02_Plain C02_cexSeg C02_exR s := by
+  intro g hg
+  have hflat : ∀ (u : Text) (g : Text), g ∈ C02_cexSeg.seg u → ∃ c, c ∈ u ∧ g = [c] := by
+    intro u
+    show ∀ g, g ∈ group _ _ _ u → _
+    cases u with
+    | nil => intro g hg; cases hg
+    | cons c u =>
+      simp only [group]
+      induction u generalizing c with
+      | nil => intro g hg; simp [groupGo] at hg; exact ⟨c, by simp, hg⟩
+      | cons d u ih =>
+        intro g hg
+        simp [groupGo] at hg
+        rcases hg with rfl | hg
+        · exact ⟨c, by simp, rfl⟩
+        · obtain ⟨x, hx, rfl⟩ := ih d g hg
+          exact ⟨x, by simp at hx ⊢; rcases hx with h | h <;> simp [h], rfl⟩
+  obtain ⟨c, hc, rfl⟩ := hflat s g hg
+  exact Or.inr ⟨c, [], rfl, hs c hc, by simp, rfl, by show 1 ≤ 4; omega⟩
+
+/-- non-vacuity of `C02_history`: the log "repaint `>a` with the cursor at the end, callback" is coherent,
+    runs without panic, and the theorem yields that the screen shows `>a` -/
+example :
+    Shows C02_exR.cw ((Term.blank C02_exR.cols).feed C02_exR.cw
+        (RS.run C02_cexSeg C02_exR ['>'] (RS.init C02_cexSeg C02_exR ['>'])
+          ([.refresh none ['a'] 1 none] ++ [.sync ['a'] 1 none])).1.segs.reverse.flatten)
+      ['>'] ['a'] [] [] := by
+  have hp : ∀ s : Text, (∀ c ∈ s, isC0Control c = false) → C02_Plain C02_cexSeg C02_exR s := C02_exPlain
+  have := C02_history C02_cexSeg C02_exR ['>'] [.refresh none ['a'] 1 none] ['a'] 1 none ['a'] []
+    (by decide) (hp _ (by decide)) rfl
+    ⟨⟨hp _ (by decide), by
+        intro b a hs
+        have : b = ['a'] ∧ a = [] := by
+          have h : splitAtByte ['a'] 1 = some (['a'], []) := rfl
+          rw [h] at hs; injection hs with hs; injection hs with h1 h2; exact ⟨h1.symm, h2.symm⟩
+        obtain ⟨rfl, rfl⟩ := this
+        exact ⟨hp _ (by decide), hp _ (by decide), hp _ (by decide)⟩⟩,
+      ⟨rfl, rfl, Or.inl rfl⟩, trivial⟩ rfl
+  simpa using this
